@@ -111,6 +111,24 @@ def judge_message(o):
     return ""
 
 
+def split_trace_file(r, path, parts):
+    """split a probe trace file at case boundaries into up to `parts` files (validated by independent JVMs)"""
+    rows = core.read_ndjson(path)
+    spans = split_cases(rows)
+    if len(spans) < 2 * parts or len(rows) < 20000:
+        return [path]
+    per = (len(spans) + parts - 1) // parts
+    out = []
+    for k in range(parts):
+        chunk = spans[k * per:(k + 1) * per]
+        if not chunk:
+            continue
+        p = "%s.part%d" % (path, k)
+        core.write_ndjson(p, rows[chunk[0][0]:chunk[-1][1]])
+        out.append(p)
+    return out
+
+
 def judge_file(r, path, rows, props, res, maxviol=8):
     """JudgeOnly: evaluate the property predicates on every logged observation of the file; each rejected case is a
     VIOLATION (the predicate is false on a real run); the case is removed and the rest judged again"""
